@@ -102,6 +102,7 @@ def make_sim_backend_class():
             super().__init__(entry_point=__file__, elapsed_time_attr="elapsed",
                              simulator_config=SimulatorConfig(**delays), tuner_sleep_time=tuner_sleep_time)
             self.sim_script, self.log = sim_script, log
+            self.trace_ref = []        # set by run_sim_case: the trace list (its length = position of the next event)
             self.n_polls = 0
             self.n_reports = {}        # trial -> reports emitted so far (idx)
             self.epoch = {}            # trial -> epoch the next job starts after
@@ -119,6 +120,8 @@ def make_sim_backend_class():
             cfg_now = self.configs.get(trial_id) or {}
             status, reps = self.sim_script.next_job(trial_id, self.epoch.get(trial_id, 0), int(cfg_now.get("epochs", MAX_T)))
             results = []
+            job_now = self.jobs[self.live[trial_id]]
+            job_now["idx_lo"] = self.n_reports.get(trial_id, 0)
             for rep in reps:
                 metric, epoch, elapsed = rep[0], rep[1], rep[2]
                 cost = rep[3] if len(rep) > 3 else 0.0
@@ -128,6 +131,7 @@ def make_sim_backend_class():
                 results.append({"m": metric, "epoch": epoch, "elapsed": elapsed, "idx": idx, "trial": trial_id,
                                 "st_worker_cost": cost})
             job = self.jobs[self.live[trial_id]]
+            job["idx_hi"] = self.n_reports.get(trial_id, 0)
             cfg = self.simulator_config
             job["end"] = job["start"] + (reps[-1][2] if reps else 0.0) + cfg.delay_complete_after_final_report
             job["last_result_at"] = job["start"] + (reps[-1][2] if reps else 0.0) + cfg.delay_on_trial_result
@@ -137,7 +141,8 @@ def make_sim_backend_class():
         def _new_job(self, trial_id):
             now = self.time_keeper.time()
             self.jobs.append(dict(trial=trial_id, sched=now, start=now + self.simulator_config.delay_start,
-                                  end=None, cancelled=None, status=None, n=None))
+                                  end=None, cancelled=None, release=None, status=None, n=None,
+                                  pos=len(self.trace_ref), idx_lo=None, idx_hi=None))
             self.live[trial_id] = len(self.jobs) - 1
 
         def _status_after(self, call, trial_id):
@@ -145,11 +150,16 @@ def make_sim_backend_class():
             for tr in self._all_trial_results([trial_id]):
                 self.status_after.append((call, trial_id, scripted.status_name(tr.status)))
 
-        def _cancel(self, trial_id):
+        def _cancel(self, trial_id, t_call):
+            """the tuner stopped / paused the trial at simulated time t_call: by the documented delays the worker is
+            released at t_call + delay_stop + delay_complete_after_stop (or when the job ended by itself before)"""
             if trial_id in self.live:
                 job = self.jobs[self.live[trial_id]]
                 if job["cancelled"] is None:
                     job["cancelled"] = self.time_keeper.time()
+                    cfg = self.simulator_config
+                    rel = t_call + cfg.delay_stop + cfg.delay_complete_after_stop
+                    job["release"] = rel if job["end"] is None else min(rel, job["end"])
 
         def copy_checkpoint(self, src_trial_id, tgt_trial_id):
             pass
@@ -194,19 +204,21 @@ def make_sim_backend_class():
 
         def pause_trial(self, trial_id, result=None):
             self.log(("b_pause", trial_id))
+            t_call = self.time_keeper.time()
             super().pause_trial(trial_id=trial_id, result=result)
             self._status_after("pause_trial", trial_id)
-            self._cancel(trial_id)
+            self._cancel(trial_id, t_call)
             self._paused = tuple(sorted(set(self._paused) | {trial_id}))
             if result is not None and "epoch" in result:
                 self.epoch[trial_id] = result["epoch"]   # a resumed job continues from the checkpoint of this moment
 
         def stop_trial(self, trial_id, result=None):
             self.log(("b_stop", trial_id))
+            t_call = self.time_keeper.time()
             super().stop_trial(trial_id=trial_id, result=result)
             if not self.stop_all_called:
                 self._status_after("stop_trial", trial_id)
-            self._cancel(trial_id)
+            self._cancel(trial_id, t_call)
 
         def fetch_status_results(self, trial_ids):
             ids = list(trial_ids)
@@ -249,6 +261,7 @@ def run_sim_case(case, hard_limit=450):
     logging.disable(logging.CRITICAL)
     backend = make_sim_backend_class()(sim_script, log, case["delays"], case["sleep"])
     script.backend = backend
+    backend.trace_ref = trace
     if case["scheduler"] == "scripted":
         scheduler = scripted.make_scheduler_class()(script, log)
     else:
@@ -333,7 +346,7 @@ def run_sim_case(case, hard_limit=450):
         finally:
             logging.disable(logging.NOTSET)
     return dict(trace=trace, outcome=outcome, aborted=aborted, iterations=recorder.iterations, end=end,
-                jobs=backend.jobs, poll_times=backend.poll_times, checks=backend.checks, occupancy=[],
+                jobs=backend.jobs, delays=dict(case["delays"]), poll_times=backend.poll_times, checks=backend.checks, occupancy=[],
                 status_after=backend.status_after, loop_obs=recorder.loop_obs, at_exit=recorder.at_exit,
                 record=dict(sim=sim_script.record(), script=script.record()))
 
@@ -362,12 +375,41 @@ def check_sim(params, out):
                     "resumes trials it paused itself" % (out["outcome"][1], out["outcome"][0]),
                     dict(check="lifecycle", event="resume_of_trial_not_paused_in_backend", backend="simulator")))
     # ---- budget ------------------------------------------------------------------------------------------
+    delay_start = (out.get("delays") or {}).get("delay_start", 0.0)
     for kind, now, ids, njobs in out["checks"]:
-        occ = occupying(now, njobs)
-        limit = n if kind == "b_fetch" else n - 1
-        if len(occ) > limit:
-            bad.append(("%d jobs occupy workers at %s (simulated time %.3f) with n_workers=%d" % (len(occ), kind, now, n),
-                        dict(check="budget", call=kind, backend="simulator")))
+        if kind == "b_fetch":
+            occ = occupying(now, njobs)
+            if len(occ) > n:
+                bad.append(("%d jobs occupy workers at a poll (simulated time %.3f) with n_workers=%d" % (len(occ), now, n),
+                            dict(check="budget", call=kind, backend="simulator")))
+                break
+        else:
+            # the job scheduled by this call starts at now + delay_start; a worker is held until the job ended by
+            # itself or, when the tuner stopped / paused it, until stop time + delay_stop + delay_complete_after_stop
+            start = now + delay_start
+            def free_at(j):
+                t_free = j["release"] if j["cancelled"] is not None else j["end"]
+                return float("inf") if t_free is None else t_free
+            held = sorted({j["trial"] for j in jobs[:njobs] if j["sched"] <= now and free_at(j) > start})
+            if len(held) > n - 1:
+                bad.append(("the job scheduled by %s at simulated time %.3f starts at %.3f while %d workers (n_workers=%d) are "
+                            "still held by the jobs of trials %s (stopped / paused jobs hold their worker until stop time + "
+                            "delay_stop + delay_complete_after_stop)" % (kind, now, start, len(held), n, held),
+                            dict(check="budget", call=kind, backend="simulator", measured="simulated_time")))
+                break
+    # ---- every delivered result belongs to the CURRENT run of its trial ------------------------------------------
+    for p, ev in enumerate(out["trace"]):
+        if ev[0] != "s_result":
+            continue
+        t, idx = ev[1], ev[2]
+        mine = [j for j in jobs if j["trial"] == t]
+        owner = [k for k, j in enumerate(mine) if j["idx_lo"] is not None and j["idx_lo"] <= idx < j["idx_hi"]]
+        current = [k for k, j in enumerate(mine) if j["pos"] <= p]
+        if owner and current and owner[0] != current[-1]:
+            bad.append(("trial %d: result %d, reported by run number %d of the trial, is delivered to the scheduler after run "
+                        "number %d of the trial was started (event %d of the trace): a result of a paused run arrives after "
+                        "the resume" % (t, idx, owner[0], current[-1], p),
+                        dict(check="callbacks", event="result_of_earlier_run_delivered_after_resume", backend="simulator")))
             break
     # ---- every end of a run reaches the tuning loop / scheduler --------------------------------------------------
     ended_told = {}
